@@ -98,17 +98,27 @@ fn build(seed: u64, lens: &[usize], kinds_sel: &mut Rng) -> (Vec<Cmd>, Vec<Scrip
 }
 
 fn check(obs: &Obs, sent: &[Sent], rep: &mut Report, desc: &dyn Fn() -> J) {
+    check_with(obs, sent, rep, desc, false)
+}
+
+/// `prefix_ok`: a transient transport error was injected; if run_on gave up with an error, what
+/// reached the shim before must still be a verbatim prefix of what the client framed.
+fn check_with(obs: &Obs, sent: &[Sent], rep: &mut Report, desc: &dyn Fn() -> J, prefix_ok: bool) {
     if harness_panic(obs, rep) {
         return;
     }
     let got: Vec<&Cb> = obs.log.cbs.iter().filter(|c| !matches!(c.kind, CbKind::Auth { .. })).collect();
     let mut bad: Option<(String, String)> = None;
-    if !matches!(obs.outcome, Outcome::Ok) {
+    let gave_up = prefix_ok && obs.outcome.is_err();
+    if !matches!(obs.outcome, Outcome::Ok) && !gave_up {
         bad = Some(("run_on-not-ok".into(), format!("run_on returned {} for a well-formed stream", obs.outcome.describe())));
     }
     if bad.is_none() {
         for (i, s) in sent.iter().enumerate() {
             let Some(cb) = got.get(i) else {
+                if gave_up {
+                    break;
+                }
                 bad = Some(("missing-callback".into(), format!("command #{} never reached the shim ({} of {} callbacks seen)", i, got.len(), sent.len())));
                 break;
             };
@@ -180,6 +190,15 @@ pub fn run(ctx: &Ctx) -> Report {
         // 1-byte reads over long inputs are quadratic in the real parser; cap them
         let sk = if matches!(sk, SchedKind::OneByte | SchedKind::Fixed) && input.len() > 20_000 { SchedKind::Random } else { sk };
         case.sched = make_sched(rng, sk, &input);
+        // a fifth of the cases: one transient Interrupted / WouldBlock / TimedOut on a random operation
+        let transient = !ctx.miri && i % 5 == 3;
+        if transient {
+            let dry = run_case(&case);
+            case.fault.err_at = Some(rng.below(dry.world.nops.max(1)));
+            case.fault.persistent = false;
+            case.fault.err_kind = 100 + (i / 5 % 3) as u8;
+            rep.counters.inc("cases_with_a_transient_transport_error");
+        }
         let obs = run_case(&case);
         rep.evaluations += 1;
         let maxlen = lens.iter().copied().max().unwrap_or(0);
@@ -198,7 +217,7 @@ pub fn run(ctx: &Ctx) -> Report {
         if i < 3 {
             rep.sample(d());
         }
-        check(&obs, &sent, rep, &d);
+        check_with(&obs, &sent, rep, &d, transient);
     });
     rep.merge(r);
 
